@@ -308,10 +308,10 @@ def run_shard(spec, acc):
     dec = NMEA2000Decoder()
     defs = [d for d in dbx.defs if d.index % spec["n"] == spec["i"]]
     quick = tier == "quick"
-    per_field_random = 4 if quick else 12
-    n_combo = 200 if quick else 2500
-    n_rand = 40 if quick else 600
-    n_var = 200 if quick else 3000
+    per_field_random = 4 if quick else 30
+    n_combo = 200 if quick else 12000
+    n_rand = 40 if quick else 3000
+    n_var = 200 if quick else 12000
     for d in defs:
         rng = gen.rng_for(seed, ID, d.id)
         acc.count("definitions_exercised")
